@@ -191,3 +191,38 @@ def run(op, which=0, pre_read=False, **kw):
             return judge(t, R(qx, qy), W, H, qx, qy, which)
         return judge(t, R(qx, qy) if qx < x else R(qx + 1, qy), W - 1, H, qx, qy, which)
     raise ValueError(op)
+
+
+def _ragged(w0, w1, r1, ncols):
+    t = Table("t")
+    for val, width, rep in ((1, w0, 1), (2, w1, r1)):
+        row = Row()
+        row.append_cell(_cell(val, width), clone=False)
+        if rep > 1:
+            row.repeated = rep
+        t.append_row(row, clone=False)
+    extra = ncols - t.width
+    if extra > 0:
+        t.append_column(Column(repeated=extra if extra > 1 else None))
+    return t
+
+
+def _rref(w0, w1, r1, qx, qy):
+    if qy == 0:
+        return 1 if 0 <= qx < w0 else None
+    if 1 <= qy <= r1:
+        return 2 if 0 <= qx < w1 else None
+    return None
+
+
+def ragged(op, w0, w1, r1, extra, x, qx, qy, which=0, **kw):
+    ncols = max(w0, w1) + extra
+    t = _ragged(w0, w1, r1, ncols)
+    if op == "delete_column":
+        t.delete_column(x)
+        if x >= ncols:
+            return judge(t, _rref(w0, w1, r1, qx, qy), ncols, 1 + r1, qx, qy, which)
+        return judge(t, _rref(w0, w1, r1, qx, qy) if qx < x else _rref(w0, w1, r1, qx + 1, qy), ncols - 1, 1 + r1, qx, qy, which)
+    t.insert_column(x)
+    exp = _rref(w0, w1, r1, qx, qy) if qx < x else (None if qx == x else _rref(w0, w1, r1, qx - 1, qy))
+    return judge(t, exp, max(ncols, x) + 1, 1 + r1, qx, qy, which)
